@@ -239,6 +239,8 @@ class Generator:
         if spec.strip():
             g.lines += ["    " + l for l in spec.rstrip("\n").split("\n")]
         g.lines.append("{")
+        if getattr(self, "_broadcast", None):
+            g.lines.append(" broadcast use {%s}; " % ", ".join(self._broadcast))
         g.lines += body.split("\n")
         g.lines.append("}")
         g.lines.append("// <<<")
